@@ -7,6 +7,9 @@ is and waits for a command from the controlling parent on stdin:
     mid      (os.write only) write half of the data, then die
     go-die   execute the call, report the event, then die
 
+After its final message the child waits: "again <now>" makes the same process construct the Template once
+more (the earlier Template objects stay alive), anything else ends it.
+
 argv: ROOT NOW USE_WRITER    protocol: one JSON object per line on stdout / one command per line on stdin
 """
 import builtins
@@ -29,6 +32,7 @@ _real = dict(makedirs=os.makedirs, osopen=os.open, stat=os.stat, exists=os.path.
 _depth = [0]
 _tmpfds = {}
 _fulldata = [None]
+_now = [NOW]
 
 
 def _say(obj):
@@ -207,7 +211,7 @@ def main():
     import mako.template as mt
 
     class FT:
-        time = staticmethod(lambda: BASE + NOW)
+        time = staticmethod(lambda: BASE + _now[0])
     cg.time = FT
 
     os.stat = _stat
@@ -256,17 +260,24 @@ def main():
                     ok = False
             return point("writer", call, {"bytes_ok": ok, "path_ok": os.path.abspath(outputpath) == MODPATH})
         kw["module_writer"] = writer
-    try:
-        t = mt.Template(filename=SRC, uri="/t.html", module_directory=MODDIR, **kw)
-        out = t.render()
+    alive = []          # the Templates of earlier constructions of this process stay referenced
+    while True:
         try:
-            v = int(out.split("v")[1].split()[0])
-        except Exception:
-            v = -1
-        _say({"final": "done", "rendered": v})
-    except BaseException as e:
-        _say({"final": "exc", "type": type(e).__name__, "msg": str(e)[:200]})
-    os._exit(0)
+            t = mt.Template(filename=SRC, uri="/t.html", module_directory=MODDIR, **kw)
+            alive.append(t)
+            out = t.render()
+            try:
+                v = int(out.split("v")[1].split()[0])
+            except Exception:
+                v = -1
+            _say({"final": "done", "rendered": v})
+        except BaseException as e:
+            _say({"final": "exc", "type": type(e).__name__, "msg": str(e)[:200]})
+        # the same process constructs the Template again at a later time: "again <now>"
+        cmd = _in.readline().split()
+        if len(cmd) != 2 or cmd[0] != "again":
+            os._exit(0)
+        _now[0] = int(cmd[1])
 
 
 main()
